@@ -124,6 +124,8 @@ func (i *Injector) injectJobs(cfg *config.Config) error {
 		job.Scheme = "http"
 		job.HTTPClientConfig.BearerToken = ""
 		job.HTTPClientConfig.BasicAuth = nil
+		// the proxy gets the tokens, prometheus would ask for them with the "<secret>" the marshaller writes
+		job.HTTPClientConfig.OAuth2 = nil
 		job.HTTPClientConfig.TLSConfig = config_util.TLSConfig{}
 
 		// fix invalid label
